@@ -1664,6 +1664,9 @@ func (w *Writer) writeImageQuery(q ir.ExprImageQuery) (string, error) {
 		}
 		// Layer component is one beyond the spatial components
 		layerSwizzle := ""
+		if components >= 3 {
+			return "", fmt.Errorf("image query NumLayers on a 3D image, which has no layers")
+		}
 		if components >= 1 {
 			layerSwizzle = "." + string("xyz"[components])
 		}
